@@ -1230,6 +1230,57 @@ fn oversized_case(prop: &str, idx: u64, tmproot: &Path) -> CaseRec {
     }
 }
 
+/// single-script execution: a test case ends with the skip code WITHOUT leaving the shell, a later one runs into the
+/// document's time limit. The document is skipped (as in per-process execution, where execution ends at the skip
+/// code); with another exit code in that place the timeout is reported.
+/// idx: skip / control (2) x Cram document / Markdown under --cram-compat (2)
+fn script_skip_then_timeout_case(prop: &str, idx: u64, tmproot: &Path) -> CaseRec {
+    let skip = idx % 2 == 0;
+    let compat = idx / 2 % 2 == 1;
+    let dir = tmproot.join(format!("sst-{idx}"));
+    let _ = std::fs::remove_dir_all(&dir);
+    std::fs::create_dir_all(dir.join("tmp")).unwrap();
+    let first = if skip { "(exit 80)" } else { "(exit 3)" };
+    let code_line = if skip { "" } else { "[3]\n" };
+    let (name, text) = if compat {
+        ("doc.md", format!("# first\n\n```scrut\n$ {first}\n{code_line}```\n\n# slow\n\n```scrut\n$ sleep 3; echo ok\nok\n```\n"))
+    } else {
+        ("doc.t", format!("first\n  $ {first}\n{}\nslow\n  $ sleep 3; echo ok\n  ok\n", if skip { String::new() } else { "  [3]\n".to_string() }))
+    };
+    let p = dir.join(name);
+    std::fs::write(&p, text).unwrap();
+    let mut cmd = std::process::Command::new(scrut_bin());
+    cmd.arg("test").arg("-r").arg("json").arg("--timeout-seconds").arg("1");
+    if compat {
+        cmd.arg("--cram-compat");
+    }
+    let out = cmd.arg(&p).current_dir(&dir).env("TMPDIR", dir.join("tmp")).output().expect("run scrut");
+    let code = out.status.code().unwrap_or(-1);
+    let stdout = String::from_utf8_lossy(&out.stdout).to_string();
+    let json: Option<serde_json::Value> = stdout.find('[').and_then(|p| serde_json::from_str(&stdout[p..]).ok());
+    let kinds: Vec<String> = (0..2).map(|i| json.as_ref().and_then(|j| j.pointer(&format!("/{i}/result/kind")).and_then(|v| v.as_str()).map(|s| s.to_string())).unwrap_or("?".into())).collect();
+    let (want, want_exit): (Vec<&str>, i32) = if skip { (vec!["skipped", "skipped"], 0) } else { (vec!["timeout", "skipped"], 50) };
+    let mut fails = vec![];
+    if kinds != want || code != want_exit {
+        let what = format!("single-script document [{first}; sleep 3] under --timeout-seconds 1{}: reported {:?} exit {code}, expected {:?} exit {want_exit}", if compat { " --cram-compat" } else { "" }, kinds, want);
+        fails.push(("C15:skip-e2e".to_string(), what.clone()));
+        fails.push(("C14:timed-e2e".to_string(), what.clone()));
+        fails.push(("C20:results-e2e".to_string(), what));
+    }
+    let _ = std::fs::remove_dir_all(&dir);
+    let base = T { expected: None, stream: if compat { 'o' } else { 'c' }, skip: Some(80), timeout: None, acc_empty: true, status: St::Code(0), acc_out: true, acc_err: true, dur: None, wait: 0 };
+    let t0 = if skip { T { status: St::Code(80), ..base.clone() } } else { T { expected: Some(3), status: St::Code(3), ..base.clone() } };
+    // the model of a single-script document has no clock: the script as a whole ends with a status (`dur = 1` marks where)
+    let t1 = T { dur: Some(1), status: St::Timeout, acc_empty: false, ..base.clone() };
+    CaseRec {
+        op: format!("rundocs {} case=sst.{idx}", doc_field(true, Some(1000), &[t0, t1])),
+        impl_out: format!("{} exit={}", kinds.iter().enumerate().map(|(i, k)| format!("{i}:{k}")).collect::<Vec<_>>().join(","), code),
+        oracle_fail: keep(prop, fails),
+        nontrivial: true,
+        tags: vec!["e2e:script-skip-then-timeout".into(), format!("e2e:sst-skip={skip}")],
+    }
+}
+
 pub fn run(ctx: &Ctx, prop: &str) {
     let tmproot = std::env::temp_dir().join(format!("scrut-verif-exec-{}", std::process::id()));
     std::fs::create_dir_all(&tmproot).unwrap();
@@ -1338,6 +1389,11 @@ pub fn run(ctx: &Ctx, prop: &str) {
     if prop == "C14" || ctx.thorough {
         let tr = tmproot.clone();
         ctx.run_stream("e2e-timeout-aborts-exhaustive", 14, true, |idx| Some(abort_case(prop, idx, &tr)));
+    }
+    // 4b'. single-script execution: a skip code in front of a timeout skips the document (C15; also C14, C20)
+    if prop == "C15" || prop == "C14" || ctx.thorough {
+        let tr = tmproot.clone();
+        ctx.run_stream("e2e-script-skip-then-timeout-exhaustive", 4, true, |idx| Some(script_skip_then_timeout_case(prop, idx, &tr)));
     }
     // 4c. a command that ends at once is not a timeout, however large its shell expression (C14)
     if prop == "C14" || ctx.thorough {
